@@ -960,7 +960,8 @@ class Check:
 
     def finish(self):
         known = load_known()
-        known_keys = {k["key"]: k for k in known.get("known", []) if k["property"] == self.pid}
+        # an entry is listed under the property whose rule found it; `also` names the properties that reuse that rule
+        known_keys = {k["key"]: k for k in known.get("known", []) if k["property"] == self.pid or self.pid in k.get("also", [])}
         viol = [o for o in self.obligations if not o["ok"]]
         new = [o for o in viol if o["key"] not in known_keys]
         kf = [o for o in viol if o["key"] in known_keys]
